@@ -23,7 +23,7 @@ func C04(r *core.Report) {
 		"R2 layout agreement between writer and reader - the builder's and the reader's entry stride are the same expression, BucketHeader.Store and Load touch the same byte ranges, and the fixed offsets read by Header.Load equal the cumulative sizes of the fields written by Header.Bytes; the value handed to Insert is checked against the declared value size; " +
 		"R3 determinism - no iteration over a Go map, no clock and no random source in the functions reachable from Insert and Seal; " +
 		"R4 failure is loud - no error result is discarded on the Insert/Seal paths, and every return that yields a nil table / nil bucket carries a definitely non-nil error (a shadowed or stale error variable must not turn exhaustion of the mining attempts into success). " +
-		"R10 legacy format: Insert hands a value on only when it fits the intWidth(FileSize) bytes of an entry, builder and reader derive that width from the same header field, and an undeclared target size (0) falls back to a size of full 8-byte width. R11 when a bucket is mined the bytes hashed are exactly the buffer the key was read into (all three formats). R12 no builder file is opened with O_APPEND (the spill file is written and read back from offset 0). Not decided: that mining finds a perfect hash when one exists, the eytzinger layout and search, bucket balance."
+		"R10 legacy format: Insert hands a value on only when it fits the intWidth(FileSize) bytes of an entry, builder and reader derive that width from the same header field, and an undeclared target size (0) falls back to a size of full 8-byte width. R11 when a bucket is mined the bytes hashed are exactly the buffer the key was read into (all three formats). R12 no builder file is opened with O_APPEND (the spill file is written and read back from offset 0). Not decided: that mining finds a perfect hash when one exists, the eytzinger layout and search, bucket balance. R13 every positional read (ReadAt) of the three compact-index readers is judged by its byte count: an error outcome leads to a failing return only where the count is known short or the error is known not to be io.EOF - io.ReaderAt may report io.EOF together with a complete read at the end of the source, and the key in the last slot of the file must still be found."
 	c04Narrowing(r)
 	c04Layout(r)
 	c04Determinism(r)
@@ -34,6 +34,8 @@ func C04(r *core.Report) {
 			checkReentrant(r, "C04.R5", f, "lookups")
 		}
 	}
+	c04ReadsJudgedByCount(r)
+	r.Floor("C04.R13", 5)
 	r.Floor("C04.R1", 12)
 	r.Floor("C04.R2", 3)
 	r.Floor("C04.R3", 1)
